@@ -24,10 +24,11 @@ func checkC08(w *World, tier string) *Report {
 	r := newReport("C08")
 	r.Explanation = "R8.1p (go/cfg, all paths of Call and create): SaveCall executes exactly once before every return — so attempts refused by the depth, balance, nonce and collision checks are recorded — and exactly one deferred ExitCall closes the node; " +
 		"R8.1a (resolved AST): SaveCall is preceded only by obtaining the recorder and its arguments are built from exactly this call's parameters (caller.Address(), &addr | nil, input | codeAndHash.code, value, gas), none of which is assigned before; ExitCall receives the function's own named results (leftover gas, ret, err); " +
-		"R8.2 (SSA borrowed-reference retention over all fork packages): a reference that may alias live interpreter memory (Memory.GetPtr, slices of Memory.store) or the live operand stack (Stack.peek/Back), directly or through parameters and struct fields it was passed/stored into, never reaches a store into recorder-owned memory (Call nodes, storage keys, change lists) without passing a copying call. Return data handed back by a finished frame is owned by the caller (reviewed axiom). Program order of siblings and equality of recorded values with an independent log are not decided."
+		"R8.2 (SSA borrowed-reference retention over all fork packages): a reference that may alias live interpreter memory (Memory.GetPtr, slices of Memory.store) or the live operand stack (Stack.peek/Back), directly or through parameters and struct fields it was passed/stored into, never reaches a store into recorder-owned memory (Call nodes, storage keys, change lists) without passing a copying call. Results of calls are followed through result-aliases-parameter summaries (interface calls resolved to every implementation in the fork, e.g. all precompile Run methods; captured result variables through the deferred closure); return data produced through the opcode table's function values is owned by the caller (reviewed axiom: opReturn/opRevert copy). R8.3 SaveCall/ExitCall forward their parameters positionally to add/exit, and there every parameter is stored into a field of the node on every recording path (add: a store that every return passes; exit: on every path with a non-nil cursor) — an outcome stored only for some error classes is not the outcome as seen. Program order of siblings and equality of recorded values with an independent log are not decided."
 	addR71(w, r, "R8.1p")
 	addR81a(w, r, "R8.1a")
 	addR82(w, r, "R8.2")
+	addR83(w, r, "R8.3")
 	r.Assumptions = append(r.Assumptions, "the byte slice returned by a finished frame (EVMInterpreter.Run, precompiles, join points) is not written by anyone else afterwards", "hosts calling EVM.Call/Create directly do not reuse the input buffer while the call tree is alive (only opcode-originated calls are analysed)")
 	return r
 }
@@ -226,71 +227,10 @@ func addR82(w *World, r *Report, rule string) {
 			fam[g] = true
 		}
 	}
-	// derivedFrom: roots (parameters / borrow-source calls / field loads) a value is an alias of.
-	type root struct {
-		param *ssa.Parameter
-		src   *ssa.Call
-		field string
-		free  *ssa.FreeVar
-	}
-	var rootsOf func(v ssa.Value, seen map[ssa.Value]bool) []root
-	rootsOf = func(v ssa.Value, seen map[ssa.Value]bool) []root {
-		if seen[v] {
-			return nil
-		}
-		seen[v] = true
-		switch x := v.(type) {
-		case *ssa.Parameter:
-			return []root{{param: x}}
-		case *ssa.FreeVar:
-			return []root{{free: x}}
-		case *ssa.Slice:
-			return rootsOf(x.X, seen)
-		case *ssa.ChangeType:
-			return rootsOf(x.X, seen)
-		case *ssa.Phi:
-			var out []root
-			for _, e := range x.Edges {
-				out = append(out, rootsOf(e, seen)...)
-			}
-			return out
-		case *ssa.Call:
-			if borrowSource(x) != "" {
-				return []root{{src: x}}
-			}
-			// append(a, b...) aliases a (and copies b)
-			if b, ok := x.Call.Value.(*ssa.Builtin); ok && b.Name() == "append" {
-				return rootsOf(x.Call.Args[0], seen)
-			}
-		case *ssa.UnOp:
-			if x.Op == token.MUL {
-				switch a := x.X.(type) {
-				case *ssa.FieldAddr:
-					return []root{{field: fieldID(a)}}
-				case *ssa.Alloc:
-					// local variable: union of the values stored into it
-					var out []root
-					for _, u := range *a.Referrers() {
-						if st, ok := u.(*ssa.Store); ok && st.Addr == ssa.Value(a) {
-							out = append(out, rootsOf(st.Val, seen)...)
-						}
-					}
-					return out
-				case *ssa.FreeVar:
-					return []root{{free: a}}
-				}
-			}
-			if x.Op == token.AND {
-				return nil
-			}
-		case *ssa.FieldAddr:
-			// &x.f of a borrowed object is borrowed too
-			return rootsOf(x.X, seen)
-		case *ssa.IndexAddr:
-			return rootsOf(x.X, seen)
-		}
-		return nil
-	}
+	// roots (parameters / borrow-source calls / field loads) a value may be an alias of: alias.go
+	type root = aroot
+	eng := w.aliasEngine()
+	rootsOf := eng.rootsOf
 	// retained parameters of recorder functions (fixed point through family calls)
 	retained := map[*ssa.Parameter]token.Pos{}
 	retainedField := map[*ssa.Parameter]string{}
@@ -511,4 +451,175 @@ func paramShape(info *types.Info, fd *ast.FuncDecl) func(e ast.Expr) string {
 		return "?"
 	}
 	return shape
+}
+
+// ---- R8.3 every argument of the recorder entry/exit is recorded on every recording path -------------
+
+// addR83: (a) Tracer.SaveCall / Tracer.ExitCall hand their parameters, in order, to CallTree.add /
+// CallTree.exit; (b) in add, every parameter is stored (directly or through a copying call) into a
+// field of the new node by a store that dominates every return; (c) in exit, every parameter is
+// stored into a field of the node under the cursor on every path on which the cursor is non-nil —
+// an outcome stored only under a condition on the outcome (e.g. only for successful frames) is not
+// "the outcome as seen".
+func addR83(w *World, r *Report, rule string) {
+	vm := forkPath(pkVM)
+	type pair struct{ outer, inner string }
+	for _, pr := range []pair{{"(*Tracer).SaveCall", "(*CallTree).add"}, {"(*Tracer).ExitCall", "(*CallTree).exit"}} {
+		of, inf := w.Func(vm, pr.outer), w.Func(vm, pr.inner)
+		key := "vm." + pr.outer + "->" + pr.inner
+		if of == nil || inf == nil {
+			r.undecided(rule, key, "-", "function not found: the rule's anchor does not resolve")
+			continue
+		}
+		var call *ssa.Call
+		n := 0
+		for _, b := range of.Blocks {
+			for _, ins := range b.Instrs {
+				if c, ok := ins.(*ssa.Call); ok && c.Call.StaticCallee() == inf {
+					call = c
+					n++
+				}
+			}
+		}
+		bad := ""
+		switch {
+		case n != 1:
+			bad = fmt.Sprintf("expected exactly one call of %s, found %d", pr.inner, n)
+		case len(of.Blocks) != 1:
+			bad = "the forwarding method is not straight-line: the node may be opened/closed conditionally"
+		case len(call.Call.Args) != len(of.Params):
+			bad = "argument count differs from the parameter count"
+		default:
+			for i := 1; i < len(of.Params); i++ {
+				if call.Call.Args[i] != ssa.Value(of.Params[i]) {
+					bad = fmt.Sprintf("argument %d handed to %s is not parameter %d of %s", i, pr.inner, i, pr.outer)
+				}
+			}
+		}
+		if bad != "" {
+			r.violated(rule, key, w.pos(of.Pos()), bad)
+		} else {
+			r.holds(rule, key, w.pos(call.Pos()), "parameters forwarded positionally, unconditionally, exactly once")
+		}
+	}
+	// stores of parameters into node fields
+	copying := func(v ssa.Value) ssa.Value {
+		// dst := make(..); copy(dst, p)
+		if mk, ok := v.(*ssa.MakeSlice); ok {
+			for _, rf := range *mk.Referrers() {
+				if c, ok := rf.(*ssa.Call); ok {
+					if bi, ok := c.Call.Value.(*ssa.Builtin); ok && bi.Name() == "copy" && len(c.Call.Args) == 2 && c.Call.Args[0] == ssa.Value(mk) {
+						return c.Call.Args[1]
+					}
+				}
+			}
+		}
+		if c, ok := v.(*ssa.Call); ok {
+			// append(nil or fresh, p...) copies p
+			if bi, ok := c.Call.Value.(*ssa.Builtin); ok && bi.Name() == "append" && len(c.Call.Args) == 2 {
+				switch b := c.Call.Args[0].(type) {
+				case *ssa.Const:
+					if b.Value == nil {
+						return c.Call.Args[1]
+					}
+				case *ssa.MakeSlice:
+					return c.Call.Args[1]
+				}
+			}
+			if f := c.Call.StaticCallee(); f != nil && len(c.Call.Args) == 1 {
+				switch normPath(f.String()) {
+				case "github.com/ethereum/go-ethereum/common.CopyBytes", "bytes.Clone":
+					return c.Call.Args[0]
+				}
+			}
+		}
+		return v
+	}
+	for _, rel := range []string{"(*CallTree).add", "(*CallTree).exit"} {
+		fn := w.Func(vm, rel)
+		if fn == nil {
+			r.undecided(rule, "vm."+rel, "-", "function not found")
+			continue
+		}
+		// blocks where the cursor is known nil (exit only): successors of `current == nil` tests
+		nilSide := map[*ssa.BasicBlock]bool{}
+		for _, b := range fn.Blocks {
+			iff, ok := b.Instrs[len(b.Instrs)-1].(*ssa.If)
+			if !ok {
+				continue
+			}
+			bo, ok := iff.Cond.(*ssa.BinOp)
+			if !ok || (bo.Op != token.EQL && bo.Op != token.NEQ) {
+				continue
+			}
+			var other ssa.Value
+			if k, ok := bo.Y.(*ssa.Const); ok && k.Value == nil {
+				other = bo.X
+			} else if k, ok := bo.X.(*ssa.Const); ok && k.Value == nil {
+				other = bo.Y
+			}
+			u, ok := other.(*ssa.UnOp)
+			if !ok || u.Op != token.MUL {
+				continue
+			}
+			if fa, ok := u.X.(*ssa.FieldAddr); !ok || fieldID(fa) != "P0.CallTree.current" {
+				continue
+			}
+			ns := b.Succs[0]
+			if bo.Op == token.NEQ {
+				ns = b.Succs[1]
+			}
+			if len(ns.Preds) == 1 {
+				nilSide[ns] = true
+			}
+		}
+		for i := 1; i < len(fn.Params); i++ {
+			p := fn.Params[i]
+			key := fmt.Sprintf("vm.%s/param#%d", rel, i)
+			storeBlocks := map[*ssa.BasicBlock]bool{}
+			fld := ""
+			for _, b := range fn.Blocks {
+				for _, ins := range b.Instrs {
+					st, ok := ins.(*ssa.Store)
+					if !ok || copying(st.Val) != ssa.Value(p) {
+						continue
+					}
+					fa, ok := st.Addr.(*ssa.FieldAddr)
+					if !ok || !strings.HasPrefix(fieldID(fa), "P0.Call.") {
+						continue
+					}
+					storeBlocks[b] = true
+					fld = fieldID(fa)
+				}
+			}
+			if len(storeBlocks) == 0 {
+				r.violated(rule, key, w.pos(fn.Pos()), fmt.Sprintf("parameter %d (%s) is not stored into a field of the call node", i, p.Type()))
+				continue
+			}
+			// every path from the entry to a return passes a storing block or the cursor-is-nil side
+			seen := map[*ssa.BasicBlock]bool{}
+			var leak *ssa.BasicBlock
+			var dfs func(b *ssa.BasicBlock)
+			dfs = func(b *ssa.BasicBlock) {
+				if seen[b] || storeBlocks[b] || nilSide[b] || leak != nil {
+					return
+				}
+				seen[b] = true
+				if _, ok := b.Instrs[len(b.Instrs)-1].(*ssa.Return); ok {
+					leak = b
+					return
+				}
+				for _, s := range b.Succs {
+					dfs(s)
+				}
+			}
+			dfs(fn.Blocks[0])
+			if leak != nil {
+				r.violated(rule, key, w.pos(leak.Instrs[len(leak.Instrs)-1].Pos()), fmt.Sprintf("a path reaches this return without storing parameter %d into %s: the node then does not carry the value the caller saw (the store is conditional)", i, fld))
+			} else {
+				r.holds(rule, key, w.pos(fn.Pos()), fmt.Sprintf("stored into %s on every recording path", fld))
+			}
+		}
+	}
+	r.need(rule, 10)
 }
